@@ -127,6 +127,10 @@ lc (mp_ptr rp, gmp_randstate_t rstate)
 	{
 	  mpn_rshift (tp, tp + xn, tn, cnt);
 	  MPN_COPY_INCR (rp, tp, xn + 1);
+	  /* The callers consume m2exp/2 bits per call.  For odd m2exp the
+	     state has one more bit above those; drop it, or it would be
+	     ORed into the next chunk and left unmasked at the top.  */
+	  rp[xn] &= (CNST_LIMB (1) << cnt) - 1;
 	}
       else			/* Even limb boundary.  The callers reserve
 				   BITS_TO_LIMBS (m2exp / 2) = xn limbs; for odd
@@ -138,7 +142,7 @@ lc (mp_ptr rp, gmp_randstate_t rstate)
   TMP_FREE;
 
   /* Return number of valid bits in the result.  */
-  return (m2exp + 1) / 2;
+  return m2exp / 2;
 }
 
 
